@@ -223,11 +223,51 @@ def correspond(ctx):
         assert np.allclose(dense @ x, rhs, atol=1e-9)
         co.add("banded.dense", f"banded_dense {u} {N} {fs(ab)}", fs(dense), C.EXACT)
 
+    # ---- Fourier helper on random band-limited matrices (even V/H block, odd VU/HU/UV/UH entries)
+    for case in fourier_cases(ctx):
+        npol, N, m_max, ns, ni, coefA, fn = case
+        K = N // 2 + 1
+        dphi = np.linspace(0, np.pi, K)
+        samples = fn(dphi).values            # npol, npol, K, ns, ni
+        out = impl(lambda: fs(L.generic_ft_even_matrix(fn, m_max, nsamples=N).values), str)
+        co.add("fourier", f"fourier {npol} {N} {m_max} {ns} {ni} {fs(samples)}", out, Tol(1e-12, 1e-13),
+               desc={"npol": npol, "nsamples": N, "m_max": m_max, "ns": ns, "ni": ni})
+        co.note(f"fourier npol={npol} N={N}")
+
     # ---- block offsets / band width of dort_modem_banded, observed through special_return="bBC"
     for ns, npol, nband, nboundary in dort_layouts(ctx):
         co.add("dort.layout", f"layout {npol} " + " ".join(map(str, ns)),
                "%d %d" % (nband, nboundary), C.EXACT, desc={"streams": ns, "npol": npol})
     return co
+
+
+def fourier_cases(ctx, n=None):
+    """random trigonometric-polynomial phase matrices of degree <= m_max, with the parity the helper assumes"""
+    L = lib()
+    rng = ctx.np
+    out = []
+    for _ in range(n or ctx.n(8, 40)):
+        npol = int(rng.choice([2, 3]))
+        m_max = int(rng.integers(0, 5))
+        deg = int(rng.integers(0, m_max + 1))
+        N = int(rng.choice([v for v in (4, 6, 8, 10, 16, 32, 64) if v > 2 * m_max]))
+        ns, ni = int(rng.integers(1, 4)), int(rng.integers(1, 4))
+        A = rng.uniform(-2, 2, (npol, npol, deg + 1, ns, ni))   # cos coefficients (even entries), sin coefficients (odd entries)
+        odd = np.zeros((npol, npol), dtype=bool)
+        if npol == 3:
+            odd[0:2, 2] = True; odd[2, 0:2] = True
+            A[odd, 0] = 0.0
+
+        def fn(dphi, A=A, odd=odd, npol=npol, deg=deg):
+            dphi = np.atleast_1d(dphi)
+            n = np.arange(deg + 1)
+            c = np.cos(np.outer(n, dphi)); sn = np.sin(np.outer(n, dphi))        # deg+1, K
+            p = np.einsum("pqnij,nk->pqkij", A, c)
+            po = np.einsum("pqnij,nk->pqkij", A, sn)
+            p[odd] = po[odd]
+            return L.smrt_matrix(p)
+        out.append((npol, N, m_max, ns, ni, (A, odd, deg), fn))
+    return out
 
 
 def dort_layouts(ctx):
@@ -398,6 +438,18 @@ def oracle(ctx, hints, effort):
                             key = f"smrt_matrix:{op}" + (":mixed-kinds" if mixed else "")
                             findings.append(Finding(key, f"smrt_matrix {op} ({ka},{kb}) differs from the dense computation",
                                                     {"op": op, **args}, r[0], r[1]))
+    for case in fourier_cases(ctx, 6 if effort == "routine" else 60):
+        npol, N, m_max, ns, ni, (A, odd, deg), fn = case
+        evals += 1
+        got = np.asarray(L.generic_ft_even_matrix(fn, m_max, nsamples=N).values)
+        req = np.zeros((npol, npol, m_max + 1, ns, ni))
+        req[:, :, :deg + 1] = A
+        if npol == 3:            # the code's sign convention: (V|H, U) entries carry -sin coefficient, (U, V|H) +sin
+            req[0:2, 2] = -req[0:2, 2]
+        if not np.allclose(got, req, atol=1e-11):
+            findings.append(Finding("fourier", "generic_ft_even_matrix does not return the coefficients of a band-limited matrix",
+                                    {"op": "fourier", "npol": npol, "nsamples": N, "m_max": m_max, "A": A.tolist(), "deg": deg},
+                                    float(np.abs(got - req).max()), "max |coefficient error| <= 1e-11"))
     # de-duplicate by key, keep the smallest input
     best = {}
     for f in findings:
@@ -407,6 +459,24 @@ def oracle(ctx, hints, effort):
 
 
 def replay(inp, rp=None):
+    if inp.get("op") == "fourier":
+        L = lib()
+        A = np.array(inp["A"]); npol = inp["npol"]; deg = inp["deg"]
+        odd = np.zeros((npol, npol), dtype=bool)
+        if npol == 3:
+            odd[0:2, 2] = True; odd[2, 0:2] = True
+        def fn(dphi):
+            n = np.arange(deg + 1)
+            p = np.einsum("pqnij,nk->pqkij", A, np.cos(np.outer(n, dphi)))
+            po = np.einsum("pqnij,nk->pqkij", A, np.sin(np.outer(n, dphi)))
+            p[odd] = po[odd]
+            return L.smrt_matrix(p)
+        got = np.asarray(L.generic_ft_even_matrix(fn, inp["m_max"], nsamples=inp["nsamples"]).values)
+        req = np.zeros_like(got); req[:, :, :deg + 1] = A
+        if npol == 3:
+            req[0:2, 2] = -req[0:2, 2]
+        err = float(np.abs(got - req).max())
+        return Finding("fourier", "Fourier helper inexact", inp, err, "<= 1e-11") if err > 1e-11 else None
     r = check_case(inp["op"], {k: v for k, v in inp.items() if k != "op"})
     if r is None:
         return None
